@@ -146,6 +146,21 @@ def num_points(stripes):
     return n
 
 
+def near_below_mask(stripes, X):
+    """mask[i, j] True iff sample i lies within 4 ulp below (not on) the centre of hat j in some dimension"""
+    import numpy as np
+    X = np.asarray(X, dtype=float)
+    per_dim = []
+    for k, st in enumerate(stripes):
+        c = np.asarray(st[1:-1], dtype=float)
+        diff = c[None, :] - X[:, k][:, None]
+        per_dim.append((diff > 0) & (diff <= 4 * np.spacing(c)[None, :]))
+    m = per_dim[0]
+    for k in range(1, len(stripes)):
+        m = (m[:, :, None] | per_dim[k][:, None, :]).reshape((X.shape[0], -1))      # tensor-product hat index, first dimension slowest
+    return m
+
+
 def adjacency_mask(stripes):
     """mask[i, j] True iff the hats i and j are equal or neighbours in every dimension (supports overlap on a set of positive measure)"""
     import numpy as np
@@ -365,7 +380,7 @@ def check_norm_and_solve(ctx, alphas, stripes, R_code, b_code, masslumping, labe
               "surpluses are not c*x+s for the solution x of the system: residual %.3e (rel), c=%r" % (np.linalg.norm(res) / scale, c))
 
 
-def special_points(rng, stripes, n=12):
+def special_points(rng, stripes, n=12, ulp=False):
     """evaluation points incl. grid points, points on grid lines (cell boundaries), the domain boundary and corners"""
     import numpy as np
     d = len(stripes)
@@ -386,6 +401,11 @@ def special_points(rng, stripes, n=12):
     pts.append([1.0] * d)
     pts.append([stripes[k][1] for k in range(d)])
     pts.append([stripes[k][-2] for k in range(d)])
+    if ulp:
+        # one rounding error below / above an interior grid coordinate (what scaling a lattice data set into the unit cube produces)
+        for _ in range(3):
+            pts.append([float(np.nextafter(rng.choice(stripes[k][1:-1]), rng.choice([0.0, 1.0]))) for k in range(d)])
+        pts.append([float(np.nextafter(stripes[k][1], 0.0)) for k in range(d)])
     return np.array(pts, dtype=float)
 
 
@@ -430,9 +450,14 @@ def check_hats_nonuniform(ctx, op, stripes, X):
     index_of = {p: j for j, p in enumerate(pts)}
     with ctx.guard("B.run.returns", ML + "hat_function_non_symmetric_completely_vectorized", "nonuniform-hats"):
         points, lower, upper = op.get_hat_domain_for_every_grid_point_vectorized(stripes)
-        full = op.hat_function_non_symmetric_completely_vectorized(points, lower, upper, X)
-        ctx.check("B.hat.agree", close(full, Phi, rel=0, abs_=1e-12), ML + "hat_function_non_symmetric_completely_vectorized",
-                  "nonuniform-completely-vectorised", "max diff %.3e" % np.max(np.abs(np.asarray(full) - Phi)))
+        full = np.asarray(op.hat_function_non_symmetric_completely_vectorized(points, lower, upper, X), dtype=float)
+        ok = full.shape == Phi.shape and close(full, Phi, rel=0, abs_=1e-12)
+        wc = "nonuniform-completely-vectorised"
+        if not ok and full.shape == Phi.shape and not np.any((np.abs(full - Phi) > 1e-12) & ~near_below_mask(stripes, X)):
+            wc = "sample-ulp-below-gridpoint"       # both linear pieces are counted for x one rounding error below the hat centre
+        ctx.check("B.hat.agree", ok, ML + "hat_function_non_symmetric_completely_vectorized", wc,
+                  "max diff %.3e at point %s" % ((np.max(np.abs(full - Phi)), X[int(np.argmax(np.max(np.abs(full - Phi), axis=1)))].tolist())
+                                                 if full.shape == Phi.shape else (float("nan"), None)))
     bad_s, bad_v = [], []
     with ctx.guard("B.run.returns", DE + "hat_function_non_symmetric", "nonuniform-hats"):
         dom = [op.get_hat_domain(p, stripes) for p in pts]
@@ -563,7 +588,7 @@ def case_uniform(ctx, case):
         Rm = np.full(N, float(R)) if np.ndim(R) == 0 else R
     check_norm_and_solve(ctx, alphas, stripes, Rm, b_native, ml, labels, DE + "solve_density_estimation", "uniform")
     if case.get("hats", True) and N <= 120:
-        X = np.vstack([np.asarray(op.data, dtype=float)[:6], special_points(random.Random(case["data"]["seed"]), stripes, 8)])
+        X = np.vstack([np.asarray(op.data, dtype=float)[:6], special_points(random.Random(case["data"]["seed"]), stripes, 8, ulp=True)])
         check_hats_uniform(ctx, op, list(lv), stripes, X)
 
 
@@ -647,7 +672,7 @@ def check_nonuniform_grid(ctx, op, stripes, levels, lam, ml, numeric, labels, al
         check_norm_and_solve(ctx, alphas, stripes, R, b_run, ml, labels, DE + "solve_density_estimation_dimension_wise",
                              "nonuniform" + ("-numeric" if numeric else ""))
     if hats and N <= 120:
-        X = np.vstack([data[:6], special_points(random.Random(len(stripes[0]) * 7919 + N), stripes, 8)])
+        X = np.vstack([data[:6], special_points(random.Random(len(stripes[0]) * 7919 + N), stripes, 8, ulp=True)])
         check_hats_nonuniform(ctx, op, stripes, X)
 
 
